@@ -31,6 +31,15 @@ CHECKS = {
              'are exhausted, abandoned after k answers by close or drop, or kept suspended while other predicates are changed. Each op result and, '
              'after every op, the complete contents of all predicates are compared with a list model; any exception is a violation.',
         note='Ground facts only and no same-predicate mutation during an enumeration (those are C13/C14), so every reading of the statement gives the same lists. Trusts the 60-line list model.'),
+    'C08': dict(
+        category='exploration', design_ref='DESIGN.md section 4, C08',
+        technique='deterministic simulation with fault injection: seeded histories of register/load/assert/clear with injected load failures (syntax error, raise at statement k, I/O errors through a fake open) against a list-of-definitions reference model, full read-back after every step',
+        text='Seeded histories of load (real compiler output: tagged answers, clause-local cuts, cross-snippet and native calls, several arities of a '
+             'name; string or fake file; overwrite on/off), failing loads of six kinds, register_function in all three arity styles (also under '
+             'reserved API names), assert_fact and clear. After every op, 14 name/arity pairs (defined, undefined, sibling arities, reserved) are '
+             'read back and compared with a definition-table model (facts first, exact arity, variadic only as fallback, chain in load order with '
+             'per-definition cuts, late binding); a failing load must raise and leave every read-back unchanged.',
+        note='The model follows the code where the statement is silent (register_function on an existing key replaces the chain). File access of load_script_from_file goes through an in-memory fake; everything else is real.'),
     'C13': dict(
         category='exploration', design_ref='DESIGN.md section 4, C13',
         technique='deterministic simulation: seeded binding-stack histories with assert at arbitrary points and several simultaneously suspended uses of the same fact, against a copy-semantics reference model',
@@ -89,7 +98,7 @@ NOT_APPLICABLE = [
 ]
 
 PENDING = {p: 'claimed in DESIGN.md; its check is not built yet at this commit (work in progress), so nothing is claimed for it here' for p in
-           ['C04', 'C08', 'C20']}   # property id -> reason, for claimed-in-design properties whose check is not built yet
+           ['C04', 'C20']}   # property id -> reason, for claimed-in-design properties whose check is not built yet
 
 
 def main():
